@@ -555,6 +555,29 @@ def spacing_and_literal_obligations(P):
                 call_lit = f"dev.{meth}(" + ", ".join(args + [f"{p.name}={lit}"]) + ")"
                 call_var = f"dev.{meth}(" + ", ".join(args + [f"{p.name}=zzv"]) + ")"
                 LITVAR_JOBS.append((f"{label}/{p.name}{tag}", base_src + call_lit + "\n", base_src + f"zzv = {lit}\n" + call_var + "\n"))
+            # the way the SAME value is written does not matter: parenthesised, through a constant expression, a conversion call, abs()/max(),
+            # an expression around a variable, positionally - the firmware trace is that of the plain keyword literal
+            base_val = FLOAT_PROBE.get(p.name, 62.5) if not int_param else 62
+            plain = base_src + f"dev.{meth}(" + ", ".join(args + [f"{p.name}={base_val}"]) + ")\n"
+            half = base_val / 2
+            forms = {"parenthesised": f"({base_val})", "sum-of-halves": f"{half!r} + {half!r}", "product": f"2 * {half!r}", "difference": f"{base_val + 4} - 4",
+                     "conversion-call": (f"int({base_val})" if int_param else f"float({base_val})"), "abs": f"abs({base_val})", "max": f"max({base_val}, 0)", "min": f"min({base_val}, 100000)",
+                     "conditional": f"({base_val} if 2 > 1 else 0)", "negated-twice": f"-(-{base_val})"}
+            for fname, text in forms.items():
+                LITVAR_JOBS.append((f"{label}/{p.name}/written-as-{fname}", plain, base_src + f"dev.{meth}(" + ", ".join(args + [f"{p.name}={text}"]) + ")\n"))
+            for fname, pre, text in (("variable-plus-zero", f"zzv = {base_val}\n", "zzv + 0"), ("variable-in-parentheses", f"zzv = {base_val}\n", "(zzv)"),
+                                     ("two-variables", f"zzv = {half!r}\nyyv = {half!r}\n", "zzv + yyv"), ("variable-changed-in-branch", f"zzc = 1\nzzv = {1 if int_param else 1.5}\nif zzc > 0:\n    zzv = {base_val}\n", "zzv"),
+                                     ("variable-changed-in-loop", f"zzv = {0 if int_param else 0.0}\nfor i9 in range(2):\n    zzv = zzv + {half!r}\n", "zzv"), ("helper-result", f"def zzf():\n    return {base_val}\n", "zzf()")):
+                LITVAR_JOBS.append((f"{label}/{p.name}/written-as-{fname}", plain, base_src + pre + f"dev.{meth}(" + ", ".join(args + [f"{p.name}={text}"]) + ")\n"))
+            # positionally (when the parameter can be reached positionally with the required arguments before it)
+            pos_params = [q for q in params if q.kind in (q.POSITIONAL_ONLY, q.POSITIONAL_OR_KEYWORD)]
+            if p in pos_params and all(q.default is inspect._empty or q is p for q in pos_params[:pos_params.index(p) + 1]):
+                pos_args = []
+                for q in pos_params[:pos_params.index(p)]:
+                    v = LITERAL_PROBES.get((cls, meth, q.name), (None,))[0] or str(HOST_VALUES.get(q.name, 3 + names.index(q.name)) if not isinstance(HOST_VALUES.get(q.name), str) else repr(HOST_VALUES[q.name]))
+                    pos_args.append(v)
+                rest = [a for a in args if a.split("=")[0] not in {q.name for q in pos_params[:pos_params.index(p)]}]
+                LITVAR_JOBS.append((f"{label}/{p.name}/written-as-positional", plain, base_src + f"dev.{meth}(" + ", ".join(pos_args + [str(base_val)] + rest) + ")\n"))
     return out
 
 
